@@ -70,6 +70,11 @@ func (p *Parser) ParsePackages(ctx context.Context, packageNames []string) ([]*c
 			fileLog.Debug().Msg("found file")
 			fileCtx := fileLog.WithContext(pkgCtx)
 
+			if fileIdx >= len(pkg.Syntax) {
+				// Files that are never compiled (package unsafe) have no syntax tree.
+				fileLog.Debug().Msg("no syntax tree for file, skipping")
+				continue
+			}
 			fileSyntax := pkg.Syntax[fileIdx]
 			nv := NewNodeVisitor(fileCtx)
 			ast.Walk(nv, fileSyntax)
